@@ -23,7 +23,7 @@ fn check(acc: &mut Acc, reg: &Registry, s: &dyn Subject, body: &Body, members: V
 }
 
 pub fn run(ctx: &Ctx, reg: &Registry) -> i32 {
-    let n_variants: u64 = ctx.tier.pick(4, 16);
+    let n_variants: u64 = ctx.tier.pick(4, 48);
     let acc = ctx.par(|shard, n| {
         let mut acc = Acc::new();
         let mut unit = 0u64;
